@@ -47,6 +47,7 @@ type harness struct {
 	owner    map[[2]int]int // which worker thread feeds (c,d)
 	isWorker map[int]bool
 	hole     map[[2]int]bool
+	pool     *reassembly.StreamPool
 }
 
 // foreign: a callback for (c,d) that runs on a worker thread which does not feed (c,d) means that
@@ -175,6 +176,14 @@ func (s *stream) ReassembledSG(sg reassembly.ScatterGather, ac reassembly.Assemb
 }
 
 func (s *stream) ReassemblyComplete(ac reassembly.AssemblerContext) bool {
+	// a stream that was never used and is not the stream of a connection registered in the pool lost a creation
+	// race: its connection object was popped from the free list, reset and dropped.  Completing it means that
+	// somebody (a flusher with an old snapshot) still held a pointer to that recycled object.
+	if !s.used.Load() && s.h.pool != nil && !s.h.pool.VerifRegistered(s) {
+		s.used.Store(true)
+		s.h.emit(vh.M{"op": "orphancomplete", "c": s.c})
+		return true
+	}
 	s.enter("complete")
 	defer s.leave()
 	s.h.emit(vh.M{"op": "complete", "c": s.c, "remove": true})
@@ -226,6 +235,7 @@ func runScenario(tr *vh.Trace, sc int, s scen, controlled bool) {
 	h := &harness{sc: sc, content: map[[2]int]*asmc.Content{}, next: map[[2]int]int{}, owner: map[[2]int]int{}, isWorker: map[int]bool{}, hole: map[[2]int]bool{}}
 	h.emit(vh.M{"op": "cfg", "asm": "reassembly", "limit": 0, "controlled": controlled})
 	pool := reassembly.NewStreamPool(h)
+	h.pool = pool
 	progs := parseProgs(s.Progs)
 	for ti, prog := range progs {
 		for _, p := range prog {
